@@ -24,6 +24,10 @@ CHECKS = {
          "cw3-flex with native or cw20 (real cw20-base) deposits, refunds on/off, all payment shapes (exact, short, excess, none, wrong denom, extra coin; cw20 allowance exact/short/excess/none): every call's real balance deltas of all actors and the multisig must equal the ledger's expectation (deposit taken exactly once on a successful propose, returned exactly once to the proposer by Execute or - if enabled - Close, never otherwise); at the end the chain is moved past every expiry and Close/Execute are attempted on every proposal, after which no failed proposal may still hold its deposit when refunds are enabled (F6 tolerated under its exact signature only).", "DESIGN.md section 4 / C15"),
  "C04": ("cw3lib", "property-based testing of the decision functions against an exact-arithmetic reference model, with exhaustive enumeration of vote completions for totals <= 12",
          "Millions of constructed proposals (all three threshold kinds incl. percentages a hair above rationals j/total with 9 and 18 decimals, totals from 0 to u64::MAX, tallies placed at yes/no/quorum decision boundaries, before / exactly at / after expiry): after expiry is_passed is compared with the documented formula in exact u128 arithmetic (<= 9 decimals exactly; 18 decimals within one vote and never stricter), before expiry Passed/Rejected are checked against every completion of the outstanding votes (enumerated for totals <= 12, closed-form extremal completions cross-checked against the enumeration above), never both, never Passed with zero Yes.", "DESIGN.md section 4 / C04"),
+ "C07": ("cw1", "stateful property-based testing; authorisation predicate written from the contract docs + structural equality of relayed messages",
+         "Both proxies: generated admin sets, prior histories of allowance / permission / admin changes and freezes, then Execute by admins, subkeys with and without grants, removed admins and strangers with 0-5 messages drawn from all 22 constructible CosmosMsg kinds (mixed lists where only the k-th message is forbidden): a successful Execute implies the caller is an admin or every message is covered (bank sends cumulatively within the unexpired visible allowance; staking / distribution messages by their flags), and its Response.messages equal the submitted list exactly (order, content, no reply, no gas limit); other calls relay nothing.", "DESIGN.md section 4 / C07"),
+ "C08": ("cw1", "stateful property-based testing; allowance ledger over the visible Allowance / Permissions of all subkeys before and after every call",
+         "cw1-subkeys: generated interleavings of Increase / DecreaseAllowance (any denom, edge-biased amounts, every expiry kind around the moving block) by admins and Execute calls with several bank sends of several coins by subkeys, across expiries and re-grants: a successful spend implies the visible allowance covered every denom cumulatively and is reduced by exactly the relayed amount; increases and decreases (saturating) change only the targeted denom of the targeted subkey; nothing else, no failed call and no other subkey's activity changes an allowance or permissions; relayed <= granted at every step.", "DESIGN.md section 4 / C08"),
  "C09": ("cw4", "stateful property-based testing against a per-block membership reference model; smart queries vs raw spec keys differential",
          "Generated block-structured histories on cw4-group (UpdateMembers with overlapping add/remove lists, re-weights, remove-then-re-add, several changes per block) and cw4-stake (bond/unbond by several users): after every transaction TotalWeight == sum of paged ListMembers, Member == listing, raw TOTAL_KEY / member_key(addr) reads == smart queries; at the end of every block Member{at_height:h} (and cw4-group TotalWeight{at_height:h}) is compared with the model's start-of-block value for every pool address and every h from before instantiation to now+2.", "DESIGN.md section 4 / C09"),
  "C14": ("cw4", "stateful property-based testing; admin-gate invariants + truthfulness check of every decoded MemberChangedHookMsg",
@@ -34,6 +38,10 @@ CHECKS = {
          "Generated histories over 1-3 channels, two native and three cw20 tokens: transfers, incoming packets from a malicious counterparty (every denom form, amounts around and above the outstanding balance, invalid receivers, raw garbage), deliver / ack / timeout per sent packet in any order, payout and refund sub-calls failing on demand (blocked bank recipient, cw20 whose Transfer is switched off): after every op the contract's real holdings cover the sum over channels of the reported outstanding balance per token, and tokens paid out per (channel, token) never exceed tokens escrowed there; foreign / other-port / other-channel / excess packets and error acks move nothing.", "DESIGN.md section 4 / C11"),
  "C12": ("ics20", "stateful property-based testing with fault injection and a fabricated-legacy-storage upgrade arm; accounting identity + ack<=>effect + structural packet comparison",
          "As C11 with an honest counterparty model, governance changes mid-history and an upgrade arm (0.11.1 / 0.12.1 / 0.13.0 storage images with acked and in-flight sends and cw20 tokens possibly off the allow list, migrated first): outstanding == sent - failed/timed-out - redeemed per (channel, denom) after every op; every incoming packet is answered (never aborts); success ack => receiver got the full amount and the balance fell by it; error ack => every Channel response, all holdings and all user balances identical to before; each accepted transfer emits exactly one SendPacket whose JSON carries the escrowed amount (<= 2^64-1), denom, true sender, receiver, memo (absent when none) and timeout == block time + requested-or-default; refused transfers emit none and move nothing.", "DESIGN.md section 4 / C12"),
+ "C16": ("cw1", "differential property-based testing: CanExecute query vs Execute on a clone of the same state",
+         "States reached by generated histories on both proxies (expired and emptied allowances, all permission-flag combinations, frozen / unfrozen) at arbitrary blocks; for 20 probes per state plus every message of every Execute op: CanExecute{sender,msg} must be true exactly when Execute{msgs:[msg]} by that sender succeeds on a clone of the state.", "DESIGN.md section 4 / C16"),
+ "C17": ("cw1", "stateful property-based testing; admin-list / mutability invariants and admin-only grant changes",
+         "Both proxies: generated histories of UpdateAdmins / Freeze / allowance / permission / Execute calls by current admins, removed admins, subkeys and strangers from every initial admin set and mutability: AdminList differs only after a successful UpdateAdmins / Freeze by a member of the pre-call list while mutable; once immutable it never changes again; permissions change only in successful calls of current admins, allowances only by admins or by the subkey's own spending (never increasing).", "DESIGN.md section 4 / C17"),
  "C18": ("ics20", "stateful property-based testing; monotonicity invariants on allow list / admin / default gas limit and inspection of every payout sub-message's gas limit",
          "Generated histories of Allow (new / raise / lower / limited->unlimited / unlimited->limited), UpdateAdmin, migrate, cw20 transfers and packets / acks / timeouts that trigger payouts, by governance, former governance and strangers: allow list and admin change only in successful calls of the pre-call governance address, the allowed set only grows, per-token limits never decrease (none = unlimited), the default is never unset, cw20 transfers are accepted only if allowed or a default exists, and every cw20 payout / refund sub-message logged by the shim carries the token's current limit or else the default (native payouts: none).", "DESIGN.md section 4 / C18"),
  "C13": ("cw20", "stateful property-based testing, minter/cap invariants after every call",
@@ -49,6 +57,7 @@ FAMILIES = {
  "cw3lib": ("harness/fam_cw3 (module tally)", "proptest generator of (threshold, total, tally, expiry) + exact u128 model + completion enumeration over cw3::Proposal"),
  "ics20": ("harness/fam_ics20", "proptest op-sequence generator + interpreter over cw20-ics20 (ibc_* entry points via sudo shim, reply, migrate) with recording IBC module, fault-injecting bank and cw20 on cw-multi-test"),
  "stake": ("harness/fam_stake", "proptest op-sequence generator + interpreter over cw4-stake with real cw20-base and bank module on cw-multi-test"),
+ "cw1": ("harness/fam_cw1", "proptest op-sequence generator + interpreter over cw1-whitelist / cw1-subkeys entry points (direct driver)"),
  "cw4": ("harness/fam_cw4", "proptest block-structured history generator + interpreter over cw4-group / cw4-stake entry points (direct driver)"),
  "page": ("harness/fam_page", "proptest generator of (listing, size, deletions, limit, cursor) + paged-walk oracle over all list queries (direct driver; cw-multi-test for cw3-flex)"),
  "cw20": ("harness/fam_cw20", "proptest op-sequence generator + interpreter over cw20-base entry points (direct driver)"),
